@@ -88,6 +88,36 @@ def same_state(a, b, n=4):
             aclose(a['phi'], b['phi'], n) and aclose(a['varphi'], b['varphi'], n))
 
 
+def back_formula(spec, st):
+    """what from_conventions must make of the state st (val, errs, phi [rad], varphi) of a point with the static
+    attributes of spec: the inverse of the documented internal conventions (nb, BMK frame, radians), written out
+    independently of the package: pb: x1000 for the value and every uncertainty; Trento frame: phi -> pi - phi,
+    varphi -> varphi + pi, and the sign of the value for the harmonics that are odd under it (cos phi, cos 3 phi,
+    sin 2 phi; target-angle harmonics +-1) when the point carries the harmonic index and not the angle; degrees"""
+    val, errs, phi, varphi = st['val'], list(st['errs']), st['phi'], st['varphi']
+    if spec['pb']:
+        val = val * 1000
+        errs = [e * 1000 for e in errs]
+    if spec['frame'] == 'Trento':
+        if phi is not None:
+            phi = math.pi - phi
+        elif spec['FTn'] in (1, 3, -2):
+            val = -val
+        if varphi is not None:
+            varphi = varphi + math.pi
+        elif spec['varFTn'] in (1, -1):
+            val = -val
+    if phi is not None and spec['phiunit'][:3] == 'deg':
+        phi = phi / math.pi * 180.
+    return dict(val=val, errs=errs, phi=phi, varphi=varphi)
+
+
+# sequences of convention changes on ONE point; each returns to the original conventions (the two maps are mutually inverse
+# bijections of the state, so any sequence in which every `to` is undone by a later / earlier `from` restores the point)
+SEQS = [('to', 'to', 'from', 'from'), ('from', 'to'), ('from', 'from', 'to', 'to'), ('to', 'from', 'from', 'to'),
+        ('to', 'from', 'to', 'from')]
+
+
 def run(rep):
     import gepard as g
     from gepard.constants import Mp2
@@ -99,7 +129,13 @@ def run(rep):
 
     # ---------------- completion ----------------
     nk = 1500 if quick else 30000
-    for i in range(nk):
+    # in every run: the boundary of the momentum transfer.  t = 0 (forward limit) is legal: t <= 0 and tm = -t >= 0 are what the
+    # completion asserts, so t = 0.0 / -0.0 / the smallest negative numbers and tm = 0.0 / -0.0 / the smallest positive ones are
+    # completed (tm = -t) without an exception; the smallest numbers of the wrong sign are rejected
+    forced = [dict(t=0.0), dict(t=-0.0), dict(tm=0.0), dict(tm=-0.0), dict(t=-5e-324), dict(t=-1e-300), dict(tm=5e-324), dict(tm=1e-300),
+              dict(t=5e-324), dict(tm=-5e-324), dict(tm=-0.5), dict(t=0.0, tm=0.0)]
+    forced = [(f, trio) for f in forced for trio in (('xB', 'Q2'), ('W', 'Q2'), ())]
+    for i in range(nk + len(forced)):
         xB = 10 ** rng.uniform(-5, -0.001) if rng.random() < 0.8 else rng.uniform(0.001, 0.999)
         Q2 = 10 ** rng.uniform(-1, 3)
         W = math.sqrt(Q2 / xB - Q2 + Mp2)
@@ -115,7 +151,9 @@ def run(rep):
         else:
             give = []
         kw = {k: full[k] for k in give}
+        edge = False
         if rng.random() < 0.06:
+            edge = True
             # where Python's arithmetic raises instead of returning: vanishing denominators, negative W²
             kw = rng.choice([dict(W=0.0, Q2=Mp2), dict(xB=0.0, Q2=Q2), dict(xB=1.0, W=W), dict(xB=2.0), dict(xB=2.0, Q2=1.0),
                              dict(xB=2.0, Q2=Q2 + 2.0), dict(xB=1.0 + xB, Q2=Q2 + 4.0), dict(xB=1.0, Q2=Q2), dict(xB=2.0, W=W)])
@@ -131,6 +169,10 @@ def run(rep):
             kw['t'] = -t          # positive t: assertion
         if rng.random() < 0.1:
             kw['phi'] = 1.0
+        if i >= nk:
+            f, trio = forced[i - nk]
+            kw, edge = dict({k: full[k] for k in trio}, **f), False
+            rep.hist('fill.t-boundary', ','.join('%s=%r' % kv for kv in sorted(f.items())))
         try:
             pt = g.DataPoint(**dict(kw))
             impl = {k: pt.get(k) for k in ('xB', 'W', 'Q2', 't', 'tm', 'xi')}
@@ -149,7 +191,7 @@ def run(rep):
         except Exception as e:
             impl = 'EXC:' + type(e).__name__
         lines.append('c13.fill %s %s' % (f2hex(Mp2), ' '.join(H(kw.get(k)) for k in ('xB', 'W', 'Q2', 't', 'tm'))))
-        meta.append(dict(kind='fill', given=sorted(kw), kw=kw, full=full, impl=impl))
+        meta.append(dict(kind='fill', given=sorted(kw), kw=kw, full=full, impl=impl, edge=edge))
         rep.hist('fill.given', '+'.join(sorted(k for k in kw if k != 'phi')))
 
     # ---------------- conventions: the whole finite grid × random reals ----------------
@@ -236,11 +278,62 @@ def run(rep):
             o = 'EXC:' + type(e).__name__
         lines.append('c13.orig ' + cpt_tokens(spec, st1['val'], st1['errs'], st1['phi'], st1['varphi']) + ' ' + f2hex(pred))
         meta.append(dict(kind='orig', spec=spec, impl=o, pred=pred))
+        # ---- the point is CHANGED while it is in internal conventions (uncertainties inflated / a systematic added, a
+        # pseudo-datum in place of the value, another azimuth), then converted back: from_conventions must map the
+        # CURRENT state (closed formula back_formula; and to_conventions of the result must give the changed state back)
+        pt3 = mk_point(g, spec)
+        pt3.to_conventions()
+        mod = dict(val=st1['val'] * rng.choice([1.0, 0.5, -1.5, 2.0]) + rng.choice([0.0, 0.125, -3.0]),
+                   errs=[e * rng.choice([1.5, 2.0, 3.0]) + rng.choice([0.0, 0.25]) for e in st1['errs']],
+                   phi=None if st1['phi'] is None else rng.uniform(0, 2 * math.pi),
+                   varphi=None if st1['varphi'] is None else rng.uniform(-math.pi, math.pi))
+        pt3.val = mod['val']
+        for k, e in zip(spec['errnames'], mod['errs']):
+            setattr(pt3, k, e)
+        if mod['phi'] is not None:
+            pt3.phi = mod['phi']
+        if mod['varphi'] is not None:
+            pt3.varphi = mod['varphi']
+        want = back_formula(spec, mod)
+        try:
+            pt3.from_conventions()
+            st3 = read_point(pt3, spec)
+            okrt = same_state(st3, want, 6)
+            if okrt:
+                pt3.to_conventions()
+                okrt = same_state(read_point(pt3, spec), mod, 8)
+        except Exception as e:
+            st3 = 'EXC:' + type(e).__name__
+            okrt = False
+        lines.append('c13.fromconv ' + cpt_tokens(spec, mod['val'], mod['errs'], mod['phi'], mod['varphi']))
+        meta.append(dict(kind='fromconv', spec=spec, impl=st3, nerr=nerr, roundtrip_ok=okrt, orig=want, modified=mod))
+        rep.hist('conv.modified-between', 'pb' if spec['pb'] else 'nb')
+        # ---- sequences of convention changes on one point (unbalanced prefixes, balanced as a whole): every step against
+        # the model applied to the code's previous state; the whole sequence must restore the original point
+        seq = SEQS[len(meta) % len(SEQS)]
+        ps = mk_point(g, spec)
+        state = dict(val=spec['val'], errs=spec['errs'], phi=spec['phi'], varphi=spec['varphi'])
+        rep.hist('conv.sequence', '-'.join(seq))
+        for step, opn in enumerate(seq):
+            try:
+                getattr(ps, opn + '_conventions')()
+                new = read_point(ps, spec)
+            except ValueError:
+                new = 'ValueError'
+            except Exception as e:
+                new = 'EXC:' + type(e).__name__
+            last = step == len(seq) - 1
+            lines.append('c13.%sconv ' % opn + cpt_tokens(spec, state['val'], state['errs'], state['phi'], state['varphi']))
+            meta.append(dict(kind=opn + 'conv', spec=spec, impl=new, nerr=nerr, orig=orig, sequence=seq, step=step,
+                             roundtrip_ok=(not last) or same_state(new, orig, 16)))
+            if isinstance(new, str):
+                break
+            state = new
 
     # ---------------- every bundled point: from_conventions restores the original ----------------
     nb = 0
     for k in sorted(g.dset):
-        for pt in g.dset[k]:
+        for ipt, pt in enumerate(g.dset[k]):
             if quick and rng.random() > 0.08:
                 continue
             nb += 1
@@ -264,13 +357,13 @@ def run(rep):
                         bad.append(('to(from(%s))' % a, c[a], pt[a]))
             except Exception as e:
                 bad = [('exception', type(e).__name__, '')]
-            rep.case('bundled', (k, id(pt)), nontrivial=True,
+            rep.case('bundled', (k, ipt), nontrivial=True,
                      sample=dict(dataset=k, FTn=pt.get('FTn'), frame=pt.get('frame'), val=pt.get('val')))
             if bad:
                 rep.violation('bundled/%s/FTn=%s/%s' % (pt.get('frame'), pt.get('FTn'), bad[0][0]),
                               'from_conventions on bundled point of dataset %s (FTn=%s, frame=%s) does not restore '
                               'the original: %s' % (k, pt.get('FTn'), pt.get('frame'), bad[:3]),
-                              dict(dataset=k, index=list(g.dset[k]).index(pt) if False else None, bad=str(bad)))
+                              dict(dataset=k, index=ipt, bad=str(bad)))
     rep.coverage['bundled_points_checked'] = nb
 
     # ---------------- whole datasets, converted back and forth point after point ----------------
@@ -317,15 +410,24 @@ def run(rep):
                           dict(dataset=k, deviations=str(bad[:6])))
 
     # ---------------- model vs code ----------------
-    out = common.run_driver(lines)
+    try:
+        out = common.run_driver(lines)
+    except common.ModelUnavailable as ex:
+        out = [None] * len(lines)
+        rep.violation('model-unavailable', 'the Lean model driver of C13 could not be run (%s): completion is checked against the '
+                      'consistent triple the inputs were drawn from, the convention maps against the closed formulas and round trips only'
+                      % str(ex)[:300], dict(reason=str(ex)[:300]), found_input=False)
     for line, m, o in zip(lines, meta, out):
         kind = m['kind']
         if kind == 'fill':
-            t = o.split()
-            if t[0] == 'ok':
-                model = dict(zip(('xB', 'W', 'Q2', 't', 'tm', 'xi'), [None if x == 'N' else hex2f(x) for x in t[1:]]))
+            if o is None:
+                model = None
             else:
-                model = o
+                t = o.split()
+                if t[0] == 'ok':
+                    model = dict(zip(('xB', 'W', 'Q2', 't', 'tm', 'xi'), [None if x == 'N' else hex2f(x) for x in t[1:]]))
+                else:
+                    model = o
             impl = m['impl']
             rep.case('fill', line, sample=dict(given=m['given'], impl=str(impl)[:120]))
             def cond(k):
@@ -340,28 +442,34 @@ def run(rep):
                 if k in ('xB', 'xi') and 'W' in kw_ and 'Q2' in kw_:
                     return 1 + (kw_['W'] ** 2 + Mp2) / max(abs(kw_['W'] ** 2 + kw_['Q2'] - Mp2), 1e-300)
                 return 1
-            agree = (impl == model) if (isinstance(impl, str) or isinstance(model, str)) else (
-                'ALTERED' not in impl and all(close(impl[k], model[k], 4 * cond(k)) for k in model))
-            if agree:
+            if model is None:
+                agree = True        # no model: the property oracle below decides alone
+            else:
+                agree = (impl == model) if (isinstance(impl, str) or isinstance(model, str)) else (
+                    'ALTERED' not in impl and all(close(impl[k], model[k], 4 * cond(k)) for k in model))
+            if m.get('edge') and (agree or model is None):
+                # inputs outside the property's domain (xB = 0, 1, 2, W = 0 ...): only model and code are compared
                 continue
-            # property oracle on the real code
+            # property oracle on the real code: on EVERY in-domain case (also when model and code agree: a misreading they
+            # share is seen here), with the conditioning of the completed variable carried into the tolerance
             n3 = len([k for k in m['given'] if k in ('xB', 'W', 'Q2')])
             n2 = len([k for k in m['given'] if k in ('t', 'tm')])
             viol = None
             if isinstance(impl, str):
                 if impl == 'KinematicsError' and (n3 == 3 or n2 == 2):
                     viol = None
-                elif impl == 'AssertionError' and m['kw'].get('t', 0) > 0:
-                    viol = None
+                elif impl == 'AssertionError' and (m['kw'].get('t', 0) > 0 or m['kw'].get('tm', 0) < 0):
+                    viol = None           # the sign convention t <= 0, tm = -t >= 0
                 else:
                     viol = 'well-determined input rejected with ' + impl
             else:
                 if n3 == 3 or n2 == 2:
                     viol = 'over-determined input accepted'
+                elif m['kw'].get('t', 0) > 0 or m['kw'].get('tm', 0) < 0:
+                    viol = 'positive t / negative tm accepted'
                 elif 'ALTERED' in impl:
                     viol = 'given value of %s altered' % impl['ALTERED']
-                elif n3 == 2 and not (close(impl['xB'], m['full']['xB'], 40) and close(impl['W'], m['full']['W'], 40)
-                                      and close(impl['Q2'], m['full']['Q2'], 40)):
+                elif n3 == 2 and not all(close(impl[k], m['full'][k], 40 * cond(k)) for k in ('xB', 'W', 'Q2')):
                     viol = 'completed triple differs from the consistent triple'
                 elif impl.get('xB') is not None and not close(impl['xi'], impl['xB'] / (2 - impl['xB']), 4):
                     viol = 'xi != xB/(2-xB)'
@@ -369,24 +477,37 @@ def run(rep):
                     viol = 'tm != -t'
                 elif n3 < 2 and any(impl[k] is not None and k not in m['given'] for k in ('xB', 'W', 'Q2')):
                     viol = 'under-determined input silently completed'
+            if agree and viol is None:
+                continue
             rep.violation('fill/%s/%s' % ('+'.join(m['given']), (viol or 'model-mismatch').split(' ')[0]),
                           'DataPoint(%s): code gives %s, model %s%s' % (m['kw'], impl, model, '; ' + viol if viol else ''),
                           dict(kw=m['kw'], impl=str(impl), model=str(model), protocol_line=line),
                           found_input=viol is not None)
         elif kind in ('toconv', 'fromconv'):
-            model = parse_cpt(o, m['nerr'])
+            model = None if o is None else parse_cpt(o, m['nerr'])
             impl = m['impl']
             s = m['spec']
-            rep.case(kind, line, sample=dict(frame=s['frame'], FTn=s['FTn'], varFTn=s['varFTn'], pb=s['pb'],
-                                             phiunit=s['phiunit'] if s['phi'] is not None else None))
+            rep.case(kind + ('.modified' if m.get('modified') else '.sequence' if m.get('sequence') else ''), line,
+                     sample=dict(frame=s['frame'], FTn=s['FTn'], varFTn=s['varFTn'], pb=s['pb'],
+                                 phiunit=s['phiunit'] if s['phi'] is not None else None))
             impl_cmp = impl if isinstance(impl, str) else {k: impl[k] for k in ('val', 'errs', 'phi', 'varphi')}
-            agree = same_state(impl_cmp, model, 4) and not (isinstance(impl, dict) and impl.get('ORIG-NOT-KEPT'))
-            rt_bad = kind == 'fromconv' and not m['roundtrip_ok']
+            agree = (model is None or same_state(impl_cmp, model, 4)) and not (isinstance(impl, dict) and impl.get('ORIG-NOT-KEPT'))
+            rt_bad = m.get('roundtrip_ok') is False
             if agree and not rt_bad:
                 continue
             tag = 'frame=%s/FTn=%s/varFTn=%s/pb=%s/phi=%s' % (s['frame'], s['FTn'], s['varFTn'], s['pb'],
                                                               s['phiunit'] if s['phi'] is not None else None)
-            if rt_bad:
+            if rt_bad and m.get('modified'):
+                rep.violation('roundtrip-modified/' + tag, 'a point (%s) converted with to_conventions, then changed to %s, then converted '
+                              'back with from_conventions: the current state maps to %s, the code leaves %s (its from_conventions is not a '
+                              'function of the current value / uncertainties / angles, or to_conventions does not invert it)' % (
+                                  tag, m['modified'], m['orig'], impl),
+                              dict(spec=s, changed_state=m['modified'], after=str(impl), required=m['orig'], protocol_line=line))
+            elif rt_bad and m.get('sequence'):
+                rep.violation('roundtrip-sequence/%s/' % '-'.join(m['sequence']) + tag, 'the sequence %s of convention changes on one point '
+                              'does not restore it (%s): original %s, afterwards %s' % ('-'.join(m['sequence']), tag, m['orig'], impl),
+                              dict(spec=s, sequence=list(m['sequence']), after=str(impl), original=m['orig'], protocol_line=line))
+            elif rt_bad:
                 rep.violation('roundtrip/' + tag, 'to_conventions then from_conventions does not restore the point '
                               '(%s): original %s, after round trip %s' % (tag, m['orig'], impl),
                               dict(spec=s, after=str(impl), original=m['orig'], protocol_line=line))
@@ -398,8 +519,8 @@ def run(rep):
             impl = m['impl']
             s = m['spec']
             rep.case('orig', line, sample=dict(frame=s['frame'], FTn=s['FTn'], varFTn=s['varFTn'], pb=s['pb']))
-            model = hex2f(o) if o != 'bad-op' else o
-            if not isinstance(impl, str) and not isinstance(model, str) and close(impl, model, 4):
+            model = None if o is None else (hex2f(o) if o != 'bad-op' else o)
+            if model is not None and not isinstance(impl, str) and not isinstance(model, str) and close(impl, model, 4):
                 continue
             # property oracle: the same map that from_conventions applies to the value
             p3 = mk_point(g, s)
@@ -411,6 +532,8 @@ def run(rep):
                 found = isinstance(impl, str) or not close(impl, p3.val, 4)
             except Exception:
                 pass
+            if model is None and not found:
+                continue        # no model: the oracle alone decides
             rep.violation('orig/frame=%s/FTn=%s/varFTn=%s/pb=%s' % (s['frame'], s['FTn'], s['varFTn'], s['pb']),
                           'orig_conventions(%r) gives %r, model %r, from_conventions maps the value to %r' % (
                               m['pred'], impl, model, p3.get('val')),
@@ -418,6 +541,10 @@ def run(rep):
     if not ok and not rep.violations:
         rep.violation('lean', 'Lean side of C13 no longer checks: ' + why, dict(reason=why), found_input=False)
     rep.assumptions += ['floats compared within 4 ulp (6 ulp for the degree<->radian round trip); theorems are over ℝ',
+                        'completion oracle: the completed variable within 40 ulp x the condition number of its formula (W^2 - M^2, '
+                        'W^2 + Q2 - M^2 and Q2/xB - Q2 + M^2 cancel near threshold / xB -> 1) of the consistent triple the inputs were drawn from',
+                        'a DataPoint in internal conventions may be changed (value, uncertainties, angles) before from_conventions: the '
+                        'convention change is a map of the current state (property: "the same map"; "restores ... all uncertainties")',
                         'points are built with DataPoint(**kwargs) carrying exactly the attributes the conventions read']
     return rep.finish(level='proof', checker_cmd='lake build Props.C13; #print axioms; gepdriver c13.* vs DataPoint',
                       trusted=['Lean 4.33 kernel', 'Scalar/Conv.lean.in instantiated at Float and ℝ (same text)',
